@@ -204,6 +204,43 @@ func init() {
 			return 5
 		})
 		botAll()
+		// stale-interest top-up: a long quiet gap (nobody touches the positions, their borrow interest
+		// is accrued lazily), then the price is put where one position's health, with the interest of
+		// the gap counted, is just under the safety factor; in that block — before any bot — every
+		// owner tops up with a very small amount: the message must be refused for that position
+		if !w.Dead {
+			w.Step(86400 * 45)
+			ctx := w.ReadCtx()
+			pk := w.App.PerpetualKeeper
+			sf := pk.GetSafetyFactor(ctx)
+			for _, p := range pk.GetAllMTPs(ctx) {
+				if p.TradingAsset != "uatom" {
+					continue
+				}
+				sub, _ := ctx.CacheContext()
+				ammPool, err := pk.GetAmmPool(sub, p.AmmPoolId)
+				if err != nil {
+					continue
+				}
+				pk.UpdateMTPBorrowInterestUnpaidLiability(sub, &p)
+				h, err := pk.GetMTPHealth(sub, p, ammPool, "uusdc")
+				if err != nil || !h.IsPositive() {
+					continue
+				}
+				ratio := sf.Mul(chain.Dec("0.995")).Quo(h)
+				if p.Position == perptypes.Position_SHORT {
+					ratio = math.LegacyOneDec().Quo(ratio)
+				}
+				if ratio.GT(chain.Dec("0.4")) && ratio.LT(chain.Dec("2.5")) {
+					w.Prices["ATOM"] = atom().Mul(ratio)
+					c.Ev("price_put_just_under_a_liquidation_level_after_a_long_gap")
+					break
+				}
+			}
+			topUps()
+			g.Free(3, nil)
+			botAll()
+		}
 		// every owner closes every perpetual position in full (liabilities and custody of the pool go
 		// back to exactly zero), then only liquidity-pool operations follow
 		for round := 0; round < 3 && !w.Dead; round++ {
